@@ -16,6 +16,7 @@
 #include <pistache/peer.h>
 #include <pistache/transport.h>
 
+#include <cctype>
 #include <cstring>
 #include <ctime>
 #include <iomanip>
@@ -456,7 +457,11 @@ namespace Pistache::Http
 
                 char* end;
                 const char* raw = chunkSize.rawText();
-                auto sz         = std::strtol(raw, &end, 16);
+                // The size has to start with a hex digit: strtol would skip leading
+                // white space (the CRLF of an empty line) and read on past the buffer.
+                if (!std::isxdigit(static_cast<unsigned char>(*raw)))
+                    throw std::runtime_error("Invalid chunk size");
+                auto sz = std::strtol(raw, &end, 16);
                 if (*end != '\r')
                     throw std::runtime_error("Invalid chunk size");
 
